@@ -588,7 +588,9 @@ mod mpp {
 		ks: u8, nosec: bool }
 
 	#[derive(Clone, Debug)]
-	struct Held { id: u64, value: u64, intended: u64, skim: u64, total: u64, cltv: u32, ks: bool }
+	struct Held { id: u64, value: u64, intended: u64, skim: u64, total: u64, cltv: u32, ks: bool,
+		/// the value of the even (required) custom TLV the SENDER put into this part's onion, None = the part carries none
+		even: Option<u8> }
 
 	#[derive(PartialEq, Clone, Copy, Debug)]
 	enum PartOut { Held, Claimable, Rejected, Refused, Abort }
@@ -789,7 +791,7 @@ mod mpp {
 				out = PartOut::Rejected;
 			} else {
 				self.ops.push(op.clone());
-				self.held.push(Held { id, value: add.amount, intended: p.amt, skim: add.skim.unwrap_or(0), total: p.total, cltv: add.cltv, ks: p.ks != 0 });
+				self.held.push(Held { id, value: add.amount, intended: p.amt, skim: add.skim.unwrap_or(0), total: p.total, cltv: add.cltv, ks: p.ks != 0, even: ev });
 				let shape = if self.held.iter().any(|h| h.value < h.intended) { "-skimmed" } else if self.held.iter().any(|h| h.value > h.intended) { "-overpaid" } else { "" };
 				if let Some((amt, skimmed, dl)) = seen.claimable.first().copied() {
 					// oracle 1: claimable only if complete, with the right amount, skimmed fee and deadline
@@ -800,6 +802,8 @@ mod mpp {
 					let min_cltv = held.iter().map(|h| h.cltv).min().unwrap_or(0);
 					let desc = format!("[{}] `{}` -> {} with held parts {:?}; ops: {}", self.kind, op, seen.answer(), self.held, self.history());
 					if held.iter().any(|h| h.total != p.total) { rec.oracle_fail(format!("PaymentClaimable over parts with different total_msat: {}", desc)); }
+					// RecipientOnionFields::check_merge: every part of an announced set carries the same even (required) custom TLVs, whatever the arrival order
+					if let Some(h) = held.iter().find(|h| h.even != held[0].even) { rec.oracle_fail(format!("PaymentClaimable produced although the parts disagree on even custom TLV {}: HTLC {} carries {:?}, HTLC {} carries {:?}: {}", EVEN_TLV, held[0].id, held[0].even, h.id, h.even, desc)); }
 					if sum_int < p.total { rec.oracle_fail(format!("PaymentClaimable for an incomplete set (sum intended {} < total_msat {}): {}", sum_int, p.total, desc)); }
 					if amt != sum_val { rec.oracle_fail(format!("PaymentClaimable amount {} != sum of held HTLC values {}: {}", amt, sum_val, desc)); }
 					if skimmed != sum_skim { rec.oracle_fail(format!("PaymentClaimable counterparty_skimmed_fee_msat {} != sum of the parts' skimmed fees {}: {}", skimmed, sum_skim, desc)); }
@@ -999,7 +1003,7 @@ mod mpp {
 				let op = format!("part {} {} {} {} {} {} {} {}", id, a.amount, late.amt, a.skim.map(|v| v.to_string()).unwrap_or("none".into()), late.total, a.cltv, tag, ev.is_some() as u8);
 				self.ops.push(op.clone());
 				if !of_part.fulfils.is_empty() || !of_part.claimable.is_empty() { rec.oracle_fail(format!("[{}] `{}` arriving while the payment is being claimed produced {}", self.kind, op, of_part.answer())); }
-				if of_part.fails.is_empty() { self.held.push(Held { id, value: a.amount, intended: late.amt, skim: a.skim.unwrap_or(0), total: late.total, cltv: a.cltv, ks: false }); }
+				if of_part.fails.is_empty() { self.held.push(Held { id, value: a.amount, intended: late.amt, skim: a.skim.unwrap_or(0), total: late.total, cltv: a.cltv, ks: false, even: ev }); }
 				rec.case(&op, &of_part.answer(), if of_part.fails.is_empty() { "part:held-during-claim" } else { "part:rejected-during-claim" }, true);
 			} else { self.dead = true; rec.discarded += 1; }
 			let claimed = !all.claimed.is_empty();
